@@ -11,7 +11,8 @@ RULE = ("Monitor 1: in every child list of every result, the engine-attached chi
         "are ordered as the property prescribes; a hit enclosed by an earlier kept hit must be absent if that hit was decoded, "
         "and nested under the most recent enclosing undecoded context (never a sibling of an enclosing hit) otherwise; "
         "tallies are kept separately for top-level and nested searches. Workloads as C04, aimed at 'decoded hit inside a "
-        "context at positive offset with raw hits inside its span'. distinct_nontrivial = distinct cases with a non-empty result.")
+        "context at positive offset with raw hits inside its span'. 'synth-wide' shard: synthetic registries with 300..25000 one-byte decodable fragments in one text, each three decodings deep, k = 1..5 (up to 75001 searches per scan: per-scan / per-scanner budgets); random registries list the same decoder object twice 12 % of the time. "
+        "distinct_nontrivial = distinct cases with a non-empty result.")
 ASSUMPTIONS = ["child lists / searches containing a hit whose decoder snapshot was malformed (C03) are skipped and counted"]
 EXPECTED_WALL = {"quick": 60, "thorough": 500}
 REQUIRED = {"c05_child_lists>=3": 125, "c05_enclosed_by_decoded_top": 12, "c05_enclosed_by_decoded_nested": 12,
